@@ -11,7 +11,7 @@
 From Coq Require Import String List NArith Bool Arith Permutation.
 From RB Require Import Base.Result Gen.CopyLoops Model.Buffer Model.CopyLoop Model.Thai
                        Proofs.CopyLoopP Proofs.CopyLoopSitesP Proofs.BufferSortP Proofs.ThaiP.
-From RB Require Proofs.BufferMaskP.
+From RB Require Proofs.BufferMaskP Proofs.BufferFlagFrameP.
 Import ListNotations.
 
 (* ---------------------------------------------------------------- copy loops *)
@@ -114,16 +114,16 @@ Proof. exact delete_inplace_content. Qed.
 Print Assumptions C08_delete_inplace_content.
 
 (* cluster bookkeeping never changes which glyphs the buffer holds or their order: merge_clusters keeps the sequence of
-   glyph ids; delete_glyph (output mode, levels 0/1 - where GSUB deletes) removes exactly the current glyph *)
+   glyph ids; delete_glyph (output mode - where GSUB deletes -, every cluster level) removes exactly the current glyph *)
 Theorem C08_merge_clusters_keeps_glyphs : forall b s e b', merge_clusters b s e = Ok b' ->
   map gid (pre b' ++ rest b') = map gid (pre b ++ rest b).
 Proof. exact BufferMaskP.merge_clusters_gids. Qed.
 Print Assumptions C08_merge_clusters_keeps_glyphs.
 
-Theorem C08_delete_glyph_removes_one_partial : forall b b', out_mode b = true -> level b <> 2%N -> delete_glyph b = Ok b' ->
+Theorem C08_delete_glyph_removes_one : forall b b', out_mode b = true -> delete_glyph b = Ok b' ->
   exists x t, rest b = x :: t /\ map gid (pre b') = map gid (pre b) /\ map gid (rest b') = map gid t.
-Proof. exact BufferMaskP.delete_glyph_gids. Qed.
-Print Assumptions C08_delete_glyph_removes_one_partial.
+Proof. exact BufferFlagFrameP.delete_glyph_gids_all_levels. Qed.
+Print Assumptions C08_delete_glyph_removes_one.
 
 (* non-vacuity: a concrete sort that moves two glyphs over one and merges their clusters *)
 Example C08_sort_example :
